@@ -139,18 +139,26 @@ def make_user_parser_class():
     class HookParser(UserXmlParser):
         """Hooks are looked up per (event, qname) and memoised in hooks_cache."""
 
-        # events go to a per-caller list: the hooks are user code, not shared library state
+        # events are kept on the parser instance, per calling thread: hooks are user code that may use
+        # instance state, and a hook bound to another instance would record into the wrong parser
+        def _events(self):
+            store = self.__dict__.setdefault("_seen_by_thread", {})
+            return store.setdefault(threading.get_ident(), [])
+
         def start_name(self, attrs):
-            CAP.seen.append(("start", "name", len(attrs)))
+            self._events().append(("start", "name", len(attrs)))
 
         def end_name(self, obj):
-            CAP.seen.append(("end", "name", canon(obj)))
+            self._events().append(("end", "name", canon(obj)))
 
         def end_item(self, obj):
-            CAP.seen.append(("end", "item", type(obj).__name__))
+            self._events().append(("end", "item", type(obj).__name__))
 
         def end_x(self, obj):
-            CAP.seen.append(("end", "x", canon(obj)))
+            self._events().append(("end", "x", canon(obj)))
+
+        def end_label(self, obj):
+            self._events().append(("end", "label", canon(obj)))
 
     return HookParser
 
@@ -308,9 +316,9 @@ def op_user_parse(docname, data, clazz_key, handler, needs, group):
 
     def fn(env, fault):
         p = env.tool(tool)
-        CAP.seen = []
+        p._events().clear()
         obj = p.from_bytes(data, _resolve_clazz(clazz_key))
-        return (obj, list(CAP.seen))
+        return (obj, list(p._events()))
 
     return Op(f"user_parse:{handler}:{docname}", "user_parse", fn, tool, needs, (), group, docname)
 
